@@ -1,4 +1,5 @@
 import Mdsort.Proofs.Eval
+import Mdsort.Proofs.BlockSelect
 
 /-!
 # C03 - rules are evaluated with the documented first-match semantics
@@ -116,5 +117,36 @@ theorem C03_nonvacuous :
 theorem ex_old_inDomain :
     Proofs.InDomain exEnv (.block 1 (.mtch 2 (.old 2) (.and 2 (.flags 2 [84]) (.move 2 [47, 120])))) = true := by
   decide +kernel
+
+/-- **Block selection** (`maildir_skip`).  A configured path is selected iff `-` was given and the path
+is `/dev/stdin`, or `-` was not given and the path is anything else ... -/
+theorem C03_block_selected_iff (env : PEnv) (p : Bytes) :
+    Proofs.pathSelected env p = true ↔
+      (env.stdinMode = true ∧ p = ofString "/dev/stdin") ∨ (env.stdinMode = false ∧ p ≠ ofString "/dev/stdin") :=
+  Proofs.selected_iff env p
+
+/-- ... and for every environment, oracle, configuration, file contents and standard input, `mainP` is
+the same program (the same tree of calls - hence the same calls for every behaviour of the world -, the
+same exit status, log and final state) as on the configuration from which every unselected path was
+removed (`selectPaths`), and as on the one from which in addition every block left without a path was
+removed (`selectBlocks`): an unselected block is never opened, walked or evaluated. -/
+theorem C03_block_selection (env : PEnv) (orc : EvalOracles) (confOk : Bool) (conf : List ConfBlock) (files : Files)
+    (input : Bytes) :
+    mainP env orc confOk conf files input = mainP env orc confOk (Proofs.selectPaths env conf) files input ∧
+    mainP env orc confOk conf files input = mainP env orc confOk (Proofs.selectBlocks env conf) files input :=
+  Proofs.block_selection env orc confOk conf files input
+
+/-! Non-vacuity: `stdin { .. }  maildir "/m" "/dev/stdin" { .. }` without `-` and with `-`. -/
+def exPEnv (stdin : Bool) : PEnv :=
+  { now := 0, pid := 1, host := [104], random := 0, tmpdir := [47, 116], home := [47, 104], confpath := [47, 99],
+    dryrun := false, syntaxOnly := false, stdinMode := stdin }
+
+def exConf : List ConfBlock :=
+  [{ paths := [ofString "/dev/stdin"], expr := .all 1 }, { paths := [[47, 109], ofString "/dev/stdin"], expr := .all 2 }]
+
+example : (Proofs.selectPaths (exPEnv false) exConf).map (·.paths) = [[], [[47, 109]]] := by decide +kernel
+example : (Proofs.selectBlocks (exPEnv false) exConf).map (·.paths) = [[[47, 109]]] := by decide +kernel
+example : (Proofs.selectBlocks (exPEnv true) exConf).map (·.paths) =
+    [[ofString "/dev/stdin"], [ofString "/dev/stdin"]] := by decide +kernel
 
 end Mdsort.Props
